@@ -290,6 +290,18 @@ class Result:
     def finish(self, level="proof"):
         for fid, text in sorted(self.known_seen.items()):
             print("KNOWN-FINDING: property=%s %s %s" % (self.prop, fid, text))
+        # keys the evidence schema types: keep them well-typed whatever a check put there
+        for k in ("evaluations", "distinct_nontrivial", "states", "transitions", "traces_validated_against_impl", "obligations",
+                  "discharged", "programs", "disagreements_checked"):
+            if k in self.coverage and not (isinstance(self.coverage[k], int) and not isinstance(self.coverage[k], bool)):
+                self.coverage[k + "_detail"] = self.coverage.pop(k)
+        if "samples" in self.coverage and not isinstance(self.coverage["samples"], list):
+            self.coverage["samples"] = [self.coverage["samples"]]
+        for k in ("rule", "checker_cmd", "explanation"):
+            if k in self.coverage and not isinstance(self.coverage[k], str):
+                self.coverage[k] = str(self.coverage[k])
+        if level == "proof" and not self.coverage.get("obligations"):
+            level = "exploration"     # no theorem stated (yet) for this property: the run is a search, say so
         ev = dict(property_id=self.prop, tier=self.tier, seed=self.seed, level=level,
                   coverage=self.coverage, assumptions=self.assumptions,
                   wall_s=round(time.time() - self.t0, 2), violations=len(self.violations))
